@@ -63,6 +63,28 @@ func EscapeTruncations() [][]byte {
 	return out
 }
 
+// EscapeMutations: every \u escape whose four places range over hex digits of both cases, signs,
+// blanks, letters just outside the hex range, quote, backslash and a non-ASCII character, and every
+// one-character escape \c for all 256 byte values: what the grammar admits after a backslash, and
+// nothing else.
+func EscapeMutations() [][]byte {
+	alpha := []string{"0", "4", "9", "a", "F", "f", "g", "G", "+", "-", " ", "_", "x", ".", "\"", "\\", "é"}
+	var out [][]byte
+	for _, a := range alpha {
+		for _, b := range alpha {
+			for _, c := range alpha {
+				for _, d := range alpha {
+					out = append(out, []byte("\"\\u"+a+b+c+d+"\" 1"))
+				}
+			}
+		}
+	}
+	for c := 0; c < 256; c++ {
+		out = append(out, append(append([]byte("\"\\"), byte(c)), []byte("z\" 1")...))
+	}
+	return out
+}
+
 func runC03(c *core.Ctx) {
 	const thm = "C03 lex_* theorems (props/C03.v); model op lex = Lexer.dump_lex"
 	c.ReplayKnown()
@@ -92,6 +114,9 @@ func runC03(c *core.Ctx) {
 	esc := EscapeTruncations()
 	c.Pool.ParFor(len(esc), func(w, i int) { c.CheckCase(w, "lex", thm, esc[i]) })
 	c.Count("escape_truncations", int64(len(esc)))
+	escm := EscapeMutations()
+	c.Pool.ParFor(len(escm), func(w, i int) { c.CheckCase(w, "lex", thm, escm[i]) })
+	c.Count("escape_mutations", int64(len(escm)))
 	// random long inputs
 	inputs := make([][]byte, nRandom)
 	for i := range inputs {
